@@ -267,7 +267,7 @@ func runC07(r *Result, thorough bool) {
 				if _, known := d.byHex[g.ev.Hex()]; !known {
 					d.byHex[g.ev.Hex()] = g
 				}
-				c.Op(op, append([]string{"O acc"}, nd.newBlockLines()...)...)
+				c.Op(op, append([]string{"O acc", fmt.Sprintf("O pl %d", nd.h.PendingLoadedEvents)}, nd.newBlockLines()...)...)
 				accepted++
 				r.Inc("accepted_"+kind, 1)
 			}
